@@ -53,6 +53,17 @@ RECIPES = [
     ("C14", "neutral", [], N, "                R = math.hypot(g[0], g[1])\n                theta = math.atan2(g[1], g[0])\n                result.append(np.array([R, theta * 180 / math.pi, g[2]]))",
      "                gx, gy, gz = g\n                r2d = 180 / math.pi\n                result.append(np.array([math.sqrt(gx**2 + gy**2), r2d * np.arctan2(gy, gx), gz]))",
      "getcoordinates: cylindrical arm with unpacking, sqrt, np.arctan2, hoisted factor"),
+    ("C14", "neutral", [], N, SPH_INV, "                theta = math.atan2(math.hypot(g[0], g[1]), g[2])\n", "getcoordinates: polar angle from the in-plane radius, no quotient"),
+    ("C14", "neutral", [], N, SPH_INV + "                result.append(np.array([R, theta * 180 / math.pi, phi * 180 / math.pi]))",
+     "                theta = math.acos(g[2] / R)\n                result.append(np.array([R, math.degrees(theta), np.rad2deg(phi)]))",
+     "getcoordinates: polar angle by acos, degrees() / rad2deg()"),
+    ("C14", "neutral", [], N, "                th = math.atan2(loc2[1], loc2[0])\n                c = math.cos(th)\n                s = math.sin(th)\n",
+     "                rad = math.hypot(loc2[0], loc2[1])\n                c = loc2[0] / rad\n                s = loc2[1] / rad\n",
+     "cylindrical frame from the direction cosines, no atan2"),
+    ("C14", "neutral", [], N, "            if abs(loc2[2]) + abs(loc2[0]) > 1e-8:\n                th = math.atan2(loc2[0], loc2[2])\n            else:\n                th = 0\n"
+     "            c = math.cos(th)\n            s = math.sin(th)\n",
+     "            big = math.hypot(loc2[0], loc2[2])\n            if big > 1e-8:\n                c = loc2[2] / big\n                s = loc2[0] / big\n"
+     "            else:\n                c = 1.0\n                s = 0.0\n", "spherical polar rotation from the direction cosines, no atan2"),
     ("C14", "neutral", [], N, CYL_GUARD, CYL_GUARD.replace("abs(loc2[1]) + abs(loc2[0]) > 1e-8", "math.hypot(loc2[1], loc2[0]) > 1e-8"), "cylindrical guard on the radius"),
     ("C14", "neutral", [], N, CYL_GUARD, CYL_GUARD.replace("abs(loc2[1]) + abs(loc2[0]) > 1e-8", "abs(loc2[0]) > 1e-8 or abs(loc2[1]) > 1e-8"), "cylindrical guard as a disjunction"),
     ("C14", "neutral", [], N, CYL_GUARD, CYL_GUARD.replace("abs(loc2[1]) + abs(loc2[0]) > 1e-8", "max(abs(loc2[1]), abs(loc2[0])) > 1e-8"), "cylindrical guard on the larger component"),
